@@ -48,6 +48,7 @@ type Event struct {
 
 // Summary of one (function, abstract arguments) evaluation.
 type Summary struct {
+	Bools   []int // per result: 0 unknown/not bool, 1 always true, 2 always false (over reachable returns)
 	Results []Nil
 	Returns []ReturnInfo
 	Events  []Event
@@ -111,13 +112,13 @@ func (e *NilEval) call(fn *ssa.Function, args []Nil, depth int, stack []string) 
 	}
 	nres := fn.Signature.Results().Len()
 	if fn.Blocks == nil || depth > e.MaxDepth {
-		s := &Summary{Results: make([]Nil, nres)}
+		s := &Summary{Results: make([]Nil, nres), Bools: make([]int, nres)}
 		for i := range s.Results {
 			s.Results[i] = Top
 		}
 		return s
 	}
-	assumed := &Summary{Results: make([]Nil, nres)} // Bot: optimistic for recursion
+	assumed := &Summary{Results: make([]Nil, nres), Bools: make([]int, nres)} // Bot: optimistic for recursion
 	var s *Summary
 	for round := 0; round < 4; round++ {
 		e.inprog[k] = assumed
@@ -128,7 +129,7 @@ func (e *NilEval) call(fn *ssa.Function, args []Nil, depth int, stack []string) 
 		if !e.hitRec[k] || sameResults(s.Results, assumed.Results) {
 			break
 		}
-		assumed = &Summary{Results: append([]Nil{}, s.Results...)}
+		assumed = &Summary{Results: append([]Nil{}, s.Results...), Bools: make([]int, nres)}
 	}
 	e.memo[k] = s
 	return s
@@ -244,7 +245,7 @@ func (a *fnAnalysis) run() *Summary {
 	}
 	a.valMemo = map[string]Nil{}
 	a.seenEv = map[ssa.Instruction]bool{}
-	s := &Summary{Results: make([]Nil, fn.Signature.Results().Len())}
+	s := &Summary{Results: make([]Nil, fn.Signature.Results().Len()), Bools: make([]int, fn.Signature.Results().Len())}
 	for _, b := range fn.Blocks {
 		if !a.reach[b] {
 			continue
@@ -254,6 +255,15 @@ func (a *fnAnalysis) run() *Summary {
 			if r, ok := in.(*ssa.Return); ok {
 				ri := ReturnInfo{Ret: r}
 				for i, v := range r.Results {
+					if i < len(s.Bools) && isBoolType(v.Type()) {
+						t := int(a.cond(v, b)) // unknown=0, yes=1, no=2
+						switch {
+						case len(s.Returns) == 0:
+							s.Bools[i] = t
+						case s.Bools[i] != t:
+							s.Bools[i] = 0
+						}
+					}
 					n := a.nilOf(v, b)
 					ri.Results = append(ri.Results, n)
 					if i < len(s.Results) {
@@ -604,7 +614,7 @@ func (a *fnAnalysis) summary(c ssa.CallInstruction, callee *ssa.Function, b *ssa
 			n := a.nilOf(v, b)
 			if n == Bot {
 				// argument still unknown inside a loop-carried cycle: no result yet
-				bot := &Summary{Results: make([]Nil, callee.Signature.Results().Len())}
+				bot := &Summary{Results: make([]Nil, callee.Signature.Results().Len()), Bools: make([]int, callee.Signature.Results().Len())}
 				return bot
 			}
 			args = append(args, n)
@@ -671,6 +681,11 @@ func (a *fnAnalysis) cond(c ssa.Value, b *ssa.BasicBlock) tri {
 				return no
 			}
 		}
+		if call, ok := x.Tuple.(*ssa.Call); ok {
+			return a.callBool(call, x.Index, b)
+		}
+	case *ssa.Call:
+		return a.callBool(x, 0, b)
 	case *ssa.Phi:
 		r := unknown
 		first := true
@@ -689,6 +704,24 @@ func (a *fnAnalysis) cond(c ssa.Value, b *ssa.BasicBlock) tri {
 		return r
 	}
 	return unknown
+}
+
+func isBoolType(t types.Type) bool {
+	b, ok := types.Unalias(t).Underlying().(*types.Basic)
+	return ok && b.Info()&types.IsBoolean != 0
+}
+
+// callBool: constant boolean result of a static call under the abstract arguments.
+func (a *fnAnalysis) callBool(c *ssa.Call, idx int, b *ssa.BasicBlock) tri {
+	callee := sx.Callee(c)
+	if callee == nil || callee.Blocks == nil {
+		return unknown
+	}
+	s := a.summary(c, callee, b)
+	if s == nil || idx >= len(s.Bools) {
+		return unknown
+	}
+	return tri(s.Bools[idx])
 }
 
 func (a *fnAnalysis) event(in ssa.Instruction, what string) {
